@@ -35,7 +35,8 @@ contract("open_rf", kind="assumed", fresh_result=True, params=[("path", "Opaque"
                   "implies(mode == typed('a', 'Opaque') and path not in old(ghost.fchunks), is_exactly(ghost.fchunks, upd(old(ghost.fchunks), path, nil('List[Opaque]'))) "
                   "and is_exactly(ghost.fpend, rem(old(ghost.fpend), path)))",
                   "implies(mode == typed('r', 'Opaque'), is_exactly(ghost.fchunks, old(ghost.fchunks)) and is_exactly(ghost.fpend, old(ghost.fpend)))"],
-         raises={"FileNotFoundError": {"when": ["mode == typed('r', 'Opaque') and path not in ghost.fchunks"], "iff": True, "frame": True}},
+         raises={"FileNotFoundError": {"when": ["mode == typed('r', 'Opaque') and path not in ghost.fchunks"], "iff": True, "frame": True},
+                 "AnyException": {"ensures": ["OTHERS_SAME(path)", "implies(mode != typed('w', 'Opaque'), (path in ghost.fchunks) == (path in old(ghost.fchunks)) or len(CH(path)) == 0)"], "frame": False}},
          modifies=["FileObj.g_path", "FileObj.g_mode", "ghost.fchunks", "ghost.fpend"],
          note="builtin open on a results file: 'w' truncates/creates, 'a' creates if absent, 'r' needs the file (T-fs)")
 contract("FileObj.tell", kind="assumed", params=[("self", "Ref[FileObj]")], returns="int",
@@ -47,11 +48,13 @@ contract("FileObj.write", kind="assumed", params=[("self", "Ref[FileObj]"), ("te
          ensures=["implies(text != NL(), is_exactly(ghost.fpend, upd(old(ghost.fpend), self.g_path, text)) and is_exactly(ghost.fchunks, old(ghost.fchunks)))",
                   "implies(text == NL(), is_exactly(ghost.fpend, rem(old(ghost.fpend), self.g_path)) "
                   "and is_exactly(ghost.fchunks, upd(old(ghost.fchunks), self.g_path, snoc(old(CH(self.g_path)), old(ghost.fpend[self.g_path])))))"],
+         raises={"AnyException": {"ensures": ["OTHERS_SAME(self.g_path)", "self.g_path in ghost.fchunks"], "frame": False}},     # e.g. EDQUOT: only this file is affected
          modifies=["ghost.fchunks", "ghost.fpend"], note="sequential write at the end of the file; a line is complete when its newline is written (T-fs)")
 contract("os_remove_rf", kind="assumed", params=[("path", "Opaque")],
          ensures=["is_exactly(ghost.fchunks, rem(old(ghost.fchunks), path)) and is_exactly(ghost.fpend, rem(old(ghost.fpend), path))"],
-         raises={"FileNotFoundError": {"when": ["path not in ghost.fchunks"], "iff": True, "frame": True}},
-         modifies=["ghost.fchunks", "ghost.fpend"], note="os.remove (T-fs)")
+         raises={"FileNotFoundError": {"when": ["path not in ghost.fchunks"], "iff": True, "frame": True},
+                 "AnyException": {"ensures": ["is_exactly(ghost.fchunks, old(ghost.fchunks)) and is_exactly(ghost.fpend, old(ghost.fpend))"], "frame": False}},
+         modifies=["ghost.fchunks", "ghost.fpend"], note="os.remove (T-fs): the file is removed or, on an error, nothing happened")
 
 # ---- boundary: csv text <-> Result (T-csv) ------------------------------------------------------------------------------------
 # g_text: ghost field of a Result = its row text.  T-csv: formatting is a function of the six fields (ROWF) and parsing inverts it,
@@ -79,7 +82,8 @@ contract("RAgg._get_results", kind="assumed", fresh_result=True,
                   "forall(i, range(len(result)), forall(j, range(i), result[i] != result[j]))",
                   "forall(i, range(len(result)), fresh(result[i]) and ROWF(result[i]) == result[i].g_text)",
                   "forall(r, Result, implies(old(allocated(r)), r.g_text == old(r.g_text)))"],
-         raises={"FileNotFoundError": {"when": ["self._filename not in ghost.fchunks"], "iff": True, "frame": True}},
+         raises={"FileNotFoundError": {"when": ["self._filename not in ghost.fchunks"], "iff": True, "frame": True},
+                 "AnyException": {"ensures": ["is_exactly(ghost.fchunks, old(ghost.fchunks)) and is_exactly(ghost.fpend, old(ghost.fpend))"], "frame": False}},
          modifies=["Result.name", "Result.return_code", "Result.status", "Result.exec_time_s", "Result.completion_time", "Result.hpc_job_id", "Result.g_text"],
          note="csv.DictReader over the file: one Result per data line, fields parsed back (T-csv); BOUNDED check: C08/C19 harnesses")
 
@@ -127,13 +131,20 @@ contract("RAgg._append_processed_results", file=F, qualname="ResultsAggregator._
              "forall(i, range(N0(), N0() + _k1), CH(P())[i] == ROW(results[i - N0()]))",
              "f_out.g_path == P()", "unchanged(Result.g_text)",
          ]}},
-         raises={"AssertionError": {"when": ["self._is_node"], "iff": True, "frame": True}},
+         raises={"AssertionError": {"when": ["self._is_node"], "iff": True, "frame": True},
+                 # C11: a write error half way (quota, node failure) leaves every other file - in particular the node file being moved - untouched
+                 "AnyException": {"ensures": ["OTHERS_SAME(P())"], "frame": False}},
          modifies=["ghost.fchunks", "ghost.fpend", "FileObj.g_path", "FileObj.g_mode"])
 
 # read + hand over + delete, all while the node file's lock is held: no append can fall between reading and deleting
+MOVE_SAFE = "N() in ghost.fchunks or (P() in ghost.fchunks and len(CH(P())) == N0() + old(len(CH(N()))) - 1)"
 contract("RAgg._move_results", file=F, qualname="ResultsAggregator._move_results", call_alias=FILES,
          params=[("self", "Ref[RAgg]"), ("func", "Method[RAgg._append_processed_results]")],
          returns="List[Ref[Result]]", fresh_result=True,
+         # C11 (crash points): whatever raises inside, the rows are never in neither place - the node file is deleted only after all of its rows
+         # are in the consolidated file
+         crash_inv=[MOVE_SAFE],
+         raises={"AnyException": {"ensures": [MOVE_SAFE], "frame": False}, "FileNotFoundError": {"when": ["False"], "iff": True, "frame": False}},
          defs={"N": ([], "self._filename"), "PA": ([], "receiver(func)"), "P": ([], "receiver(func)._filename"),
                "N0": ([], "old(len(ghost.fchunks[receiver(func)._filename]))")},
          requires=["LOCKED(self)", "LOCKED(PA())", "not PA()._is_node", "WF_FILE(N(), self)", "WF_FILE(P(), PA())", "N() != P()",
